@@ -10,6 +10,34 @@ NCPU = min(16, os.cpu_count() or 4)
 ALLOWED_AXIOMS = {"propext", "Classical.choice", "Quot.sound"}
 FORBIDDEN = re.compile(r"\bsorry\b|\badmit\b|^axiom\s|native_decide|bv_decide|implemented_by|\bunsafe\s|maxHeartbeats\s+0|\bpartial\s+def\b")
 
+def reset_signals():
+    """dispositions are inherited through fork and exec: a check started as a background job of a shell without job
+    control (`./check C07 &`) inherits SIGINT and SIGQUIT IGNORED, hands that to the shell under test and to its jobs,
+    and Ctrl-C typed on the pty then kills nothing.  Every check starts from the default dispositions."""
+    import signal
+    for name in ("SIGINT", "SIGQUIT", "SIGTSTP", "SIGTTIN", "SIGTTOU", "SIGHUP", "SIGPIPE", "SIGCHLD", "SIGTERM", "SIGCONT", "SIGUSR1", "SIGUSR2"):
+        sig = getattr(signal, name)
+        try:
+            if signal.getsignal(sig) == signal.SIG_IGN and name != "SIGPIPE":
+                signal.signal(sig, signal.SIG_DFL)
+        except (OSError, ValueError):
+            pass
+    try:
+        signal.pthread_sigmask(signal.SIG_SETMASK, [])
+    except (OSError, ValueError, AttributeError):
+        pass
+
+
+def child_signals():
+    """in a forked child just before exec (pty.fork does not do what subprocess's restore_signals does)"""
+    import signal
+    for name in ("SIGINT", "SIGQUIT", "SIGTSTP", "SIGTTIN", "SIGTTOU", "SIGHUP", "SIGPIPE", "SIGCHLD", "SIGTERM", "SIGXFSZ"):
+        try:
+            signal.signal(getattr(signal, name), signal.SIG_DFL)
+        except (OSError, ValueError, AttributeError):
+            pass
+
+
 ENV = dict(os.environ)
 ENV["CARGO_NET_OFFLINE"] = "true"
 
@@ -301,7 +329,7 @@ def attach_glob(cvh, cases, tag):
     for i, ph in enumerate(pl):
         x = Case("globq", [ph]); x.id = "q%d" % i
         qcases.append(x)
-    ans = run_harness(cvh, qcases, tag + "gq") if qcases else {}
+    ans = run_harness(cvh, qcases, tag + "gq", keep_pid=False) if qcases else {}
     table = {ph: ans.get("q%d" % i, "[]") for i, ph in enumerate(pl)}
     for c, qc in q:
         if c.id in per:
@@ -309,7 +337,7 @@ def attach_glob(cvh, cases, tag):
             c.fields[0] = c.fields[0] + ";g=" + g
 
 
-def run_harness(cvh, cases, tag, timeout=1800, shards=None):
+def run_harness(cvh, cases, tag, timeout=1800, shards=None, keep_pid=True):
     """run the in-process harness over the cases, sharded; returns {id: observation}.
     A shard that dies or stalls yields HANG/CRASH observations for the case in flight."""
     os.makedirs(WORK, exist_ok=True)
@@ -360,6 +388,9 @@ def run_harness(cvh, cases, tag, timeout=1800, shards=None):
                 os.remove(x)
             except OSError:
                 pass
+    if not keep_pid:
+        # auxiliary queries (what does the glob crate match ...): the pid note of `mask_pid` is of no use
+        res = {k: v.rsplit("\t@pid=", 1)[0] for k, v in res.items()}
     return res
 
 
